@@ -691,3 +691,191 @@ pub fn check_small_map(c: &SmallMap, cx: &mut Cx) -> Res {
     }
     Ok(())
 }
+
+// ---------------------------------------------------------------------------------------------
+// Engine E6: the same cases decoded from fuzzer bytes (libFuzzer target `level_path_map`)
+
+/// Byte decoder for `MapCase` / `FilterCase`. Every choice consumes whole bytes from the FRONT of the input
+/// (`int_in_range` over at most 256 values = one byte modulo the range; 32-bit indices = one byte spread over the 32
+/// bits, which is all `vcore::pick` needs), so inputs can be written by hand: see `/verif/fuzzing/mkcorpus.py`.
+/// Exhausted input reads as zeros. The domain is the one of the proptest generators in `main.rs` (segments 0..6,
+/// registered paths of 1-4 segments, minimums inside the level type's scale), except that junk level texts may also
+/// contain arbitrary `char`s (the lenient-level reference classifies every string).
+pub mod fuzz {
+    use super::*;
+    use arbitrary::{Result, Unstructured};
+
+    fn idx(u: &mut Unstructured) -> Result<u32> {
+        Ok(u.arbitrary::<u8>()? as u32 * 0x0101_0101)
+    }
+
+    fn level_text(u: &mut Unstructured) -> Result<String> {
+        const NAMES: [&str; 8] = ["information", "debug", "dbg", "error", "warning", "wrn", "informations", "errors"];
+        const TAILS: [&str; 10] = ["", "", "1", "(13)", " 4", "-x", "\u{1}", "é", "!", " warn"];
+        const PADS: [&str; 4] = ["", " ", "\t", "\n "];
+        const JUNK: [char; 20] = ['i', 'n', 'f', 'o', 'd', 'e', 'b', 'u', 'g', 'w', 'a', 'r', 'E', 'W', '1', '(', ' ', '\u{1}', 'é', 't'];
+        const CANONICAL: [&str; 8] = ["debug", "info", "warn", "error", "DEBUG", "INFO", "WARN", "ERROR"];
+        Ok(match u.int_in_range(0..=9)? {
+            0u8..=5 => {
+                let name = NAMES[u.int_in_range(0..=NAMES.len() - 1)?];
+                let len = 1 + u.int_in_range(0..=name.len() - 1)?;
+                let mask: u16 = u.arbitrary()?;
+                let body: String = name[..len]
+                    .chars()
+                    .enumerate()
+                    .map(|(i, c)| if mask >> (i % 16) & 1 == 1 { c.to_ascii_uppercase() } else { c })
+                    .collect();
+                let tail = TAILS[u.int_in_range(0..=TAILS.len() - 1)?];
+                let (l, r) = (PADS[u.int_in_range(0..=3)?], PADS[u.int_in_range(0..=3)?]);
+                format!("{l}{body}{tail}{r}")
+            }
+            6 | 7 => {
+                let n = u.int_in_range(0..=6)?;
+                let mut s = String::new();
+                for _ in 0..n {
+                    let i = u.int_in_range(0..=JUNK.len() + 1)?;
+                    s.push(if i < JUNK.len() { JUNK[i] } else { u.arbitrary::<char>()? });
+                }
+                s
+            }
+            _ => CANONICAL[u.int_in_range(0..=CANONICAL.len() - 1)?].to_string(),
+        })
+    }
+
+    fn lvl_val(u: &mut Unstructured, max_int: i64) -> Result<LvlVal> {
+        Ok(match u.int_in_range(0..=20)? {
+            0u8..=2 => LvlVal::Absent,
+            3..=5 => LvlVal::Typed(u.int_in_range(0..=3)?),
+            6 => LvlVal::Display(u.int_in_range(0..=3)?),
+            7 => LvlVal::Debug(u.int_in_range(0..=3)?),
+            8..=13 => LvlVal::Text(level_text(u)?),
+            14 => LvlVal::DisplayText(level_text(u)?),
+            15 => LvlVal::I64(match u.int_in_range(0..=2)? {
+                0u8 => u.int_in_range(0..=max_int)?,
+                1 => u.int_in_range(-3i64..=299)?,
+                _ => u.arbitrary()?,
+            }),
+            16 => LvlVal::I64(u.int_in_range(0..=max_int)?),
+            17 => LvlVal::U64(if u.arbitrary::<bool>()? { u.int_in_range(0u64..=7)? } else { u.arbitrary()? }),
+            18 => LvlVal::Bool(u.arbitrary()?),
+            19 => LvlVal::Float(u.int_in_range(0..=5)?),
+            _ => LvlVal::Null,
+        })
+    }
+
+    fn lvl_val_numeric(u: &mut Unstructured) -> Result<LvlVal> {
+        Ok(match u.int_in_range(0..=13)? {
+            0u8..=2 => LvlVal::Absent,
+            3..=10 => LvlVal::I64(u.int_in_range(0i64..=7)?),
+            11 | 12 => LvlVal::U64(u.int_in_range(0u64..=7)?),
+            _ => lvl_val(u, 7)?,
+        })
+    }
+
+    fn one_lvl(u: &mut Unstructured, numeric: bool) -> Result<LvlVal> {
+        if numeric {
+            lvl_val_numeric(u)
+        } else {
+            lvl_val(u, 3)
+        }
+    }
+
+    fn ev_level(u: &mut Unstructured, numeric: bool) -> Result<EvLevel> {
+        let lvl = one_lvl(u, numeric)?;
+        let dup = if u.int_in_range(0..=4)? == 4u8 { Some(one_lvl(u, numeric)?) } else { None };
+        Ok(EvLevel { lvl, dup, noise: u.arbitrary()? })
+    }
+
+    fn filt(u: &mut Unstructured, max: u8) -> Result<Filt> {
+        let min = u.int_in_range(0..=max - 1)?;
+        let unleveled = if u.int_in_range(0..=2)? == 2u8 { Some(u.int_in_range(0..=max - 1)?) } else { None };
+        Ok(Filt { min, unleveled })
+    }
+
+    /// 1-4 segments, biased towards the prefix-sharing family a / aa
+    fn path(u: &mut Unstructured) -> Result<Vec<u8>> {
+        let n = u.int_in_range(1..=4)?;
+        (0..n).map(|_| Ok([0u8, 0, 0, 1, 1, 2, 3, 4, 5][u.int_in_range(0..=8)?])).collect()
+    }
+
+    fn module_spec(u: &mut Unstructured) -> Result<ModuleSpec> {
+        if u.int_in_range(0..=5)? == 0u8 {
+            return Ok(ModuleSpec::Free(path(u)?));
+        }
+        let reg = idx(u)?;
+        let keep = u.int_in_range(1..=4)?;
+        let sibling = if u.int_in_range(0..=2)? == 2u8 { Some(u.int_in_range(0..=5)?) } else { None };
+        let n = u.int_in_range(0..=2)?;
+        let extra = (0..n).map(|_| u.int_in_range(0..=5)).collect::<Result<Vec<u8>>>()?;
+        Ok(ModuleSpec::Related { reg, keep, sibling, extra })
+    }
+
+    pub fn map_case(u: &mut Unstructured, max: u8, numeric: bool) -> Result<MapCase> {
+        // a pool of a few paths the registrations draw from (so repeats / overrides are frequent), or a fresh path
+        let np = u.int_in_range(1..=4)?;
+        let pool = (0..np).map(|_| path(u)).collect::<Result<Vec<_>>>()?;
+        let n = u.int_in_range(0..=10)?;
+        let mut regs = Vec::new();
+        for _ in 0..n {
+            let p = if u.arbitrary::<bool>()? { path(u)? } else { pool[pick(idx(u)?, pool.len())].clone() };
+            regs.push(Reg { path: p, filt: filt(u, max)?, flavor: u.int_in_range(0..=2)? });
+        }
+        let default = if u.arbitrary::<bool>()? { Some(filt(u, max)?) } else { None };
+        let default_at = (idx(u)?, idx(u)?);
+        let from_iter = u.arbitrary()?;
+        let perm = (0..10).map(|_| idx(u)).collect::<Result<Vec<u32>>>()?;
+        let nq = u.int_in_range(1..=4)?;
+        let mut queries = Vec::new();
+        for _ in 0..nq {
+            queries.push(Query { module: module_spec(u)?, mflavor: u.int_in_range(0..=2)?, ev: ev_level(u, numeric)? });
+        }
+        Ok(MapCase { regs, default, default_at, from_iter, perm, queries })
+    }
+
+    pub fn filter_case(u: &mut Unstructured, max: u8, numeric: bool) -> Result<FilterCase> {
+        Ok(FilterCase { filt: filt(u, max)?, ev: ev_level(u, numeric)?, ctor: u.int_in_range(0..=2)? })
+    }
+
+    /// What one input denotes (first byte modulo 10).
+    #[derive(Debug)]
+    pub enum Decoded {
+        /// 0-4: path map at `Level`
+        MapLevel(MapCase),
+        /// 5: path map at `u8`
+        MapU8(MapCase),
+        /// 6: path map at the custom `Sev`
+        MapSev(MapCase),
+        /// 7: one filter at `Level` (all constructors)
+        FilterLevel(FilterCase),
+        /// 8: one filter at `u8`
+        FilterU8(FilterCase),
+        /// 9: one filter at `Sev`
+        FilterSev(FilterCase),
+    }
+
+    pub fn decode(data: &[u8]) -> Result<Decoded> {
+        let mut u = Unstructured::new(data);
+        Ok(match u.int_in_range(0..=9)? {
+            0u8..=4 => Decoded::MapLevel(map_case(&mut u, 4, false)?),
+            5 => Decoded::MapU8(map_case(&mut u, 8, true)?),
+            6 => Decoded::MapSev(map_case(&mut u, 8, true)?),
+            7 => Decoded::FilterLevel(filter_case(&mut u, 4, false)?),
+            8 => Decoded::FilterU8(filter_case(&mut u, 8, true)?),
+            _ => Decoded::FilterSev(filter_case(&mut u, 8, true)?),
+        })
+    }
+}
+
+/// libFuzzer entry (engine E6): decode the bytes into one of the case types and run the SAME oracles as the proptest
+/// generators. Listed known findings are stepped over by signature (`vcore::with_cx`).
+pub fn fuzz_entry(data: &[u8]) -> Res {
+    let Ok(case) = fuzz::decode(data) else { return Ok(()) };
+    vcore::with_cx("C17", |cx| match &case {
+        fuzz::Decoded::MapLevel(c) => check_map_case::<Level>(c, cx),
+        fuzz::Decoded::MapU8(c) => check_map_case::<u8>(c, cx),
+        fuzz::Decoded::MapSev(c) => check_map_case::<Sev>(c, cx),
+        fuzz::Decoded::FilterLevel(c) => check_level_filter_case(c, cx),
+        fuzz::Decoded::FilterU8(c) => check_filter_case::<u8>(c, cx),
+        fuzz::Decoded::FilterSev(c) => check_filter_case::<Sev>(c, cx),
+    })
+}
